@@ -268,6 +268,10 @@ pub struct Interp<'a> {
     pub leaf: u32,
     pub steps: u64,
     pub cond_depth: u32,
+    /// a command that fails inside a function called in condition position is treated like anywhere else (output
+    /// variable false, the body goes on) instead of ending the comparison as inconclusive; off while the finding about
+    /// exactly that is listed
+    pub strict_cond_errors: bool,
     pub probes: Vec<&'static str>,
     pub loop_depth: u32,
     pub call_depth: u32,
@@ -304,6 +308,7 @@ impl<'a> Interp<'a> {
             leaf: 0,
             steps: 0,
             cond_depth: 0,
+            strict_cond_errors: false,
             probes: vec![],
             loop_depth: 0,
             call_depth: 0,
@@ -551,8 +556,11 @@ impl<'a> Interp<'a> {
                 }
                 Stmt::Fail(x, _) => {
                     let _ = self.next_leaf_fails();
-                    if self.cond_depth > 0 {
+                    if self.cond_depth > 0 && !self.strict_cond_errors {
                         return Err(Stop::Inconclusive("failing leaf inside a condition call".to_string()));
+                    }
+                    if self.cond_depth > 0 {
+                        self.probes.push("failing-command-inside-a-condition-call");
                     }
                     if let Some(x) = x {
                         self.assign(x, Some("false".to_string()), false);
@@ -1468,6 +1476,49 @@ fn reroll_else_spellings(p: &mut Program) {
         fix(&mut f.body);
     }
     fix(&mut p.main);
+}
+
+/// some function that is called in condition position (directly) contains a Fail statement
+pub fn has_fail_in_condition_called_function(p: &Program) -> bool {
+    fn has_fail(stmts: &[Stmt]) -> bool {
+        stmts.iter().any(|s| match s {
+            Stmt::Fail(_, _) => true,
+            Stmt::If { branches, els, .. } => branches.iter().any(|(_, b)| has_fail(b)) || els.as_ref().map(|e| has_fail(e)).unwrap_or(false),
+            Stmt::While { body, .. } | Stmt::ForIn { body, .. } => has_fail(body),
+            _ => false,
+        })
+    }
+    fn cond_calls(stmts: &[Stmt], out: &mut Vec<String>) {
+        for s in stmts {
+            match s {
+                Stmt::If { branches, els, .. } => {
+                    for (c, b) in branches {
+                        if let Cond::Call { f, .. } = c {
+                            out.push(f.clone());
+                        }
+                        cond_calls(b, out);
+                    }
+                    if let Some(e) = els {
+                        cond_calls(e, out);
+                    }
+                }
+                Stmt::While { cond, body, .. } => {
+                    if let Cond::Call { f, .. } = cond {
+                        out.push(f.clone());
+                    }
+                    cond_calls(body, out);
+                }
+                Stmt::ForIn { body, .. } => cond_calls(body, out),
+                _ => {}
+            }
+        }
+    }
+    let mut called = vec![];
+    cond_calls(&p.main, &mut called);
+    for f in &p.fns {
+        cond_calls(&f.body, &mut called);
+    }
+    p.fns.iter().any(|f| called.contains(&f.name) && has_fail(&f.body))
 }
 
 pub fn uses_fullname_else(p: &Program) -> bool {
